@@ -131,6 +131,15 @@ def ctxmix_program():
     return Contract(methods=tuple(ms), entry_points="")
 
 
+def instnames_program():
+    """Instantiate / migrate arguments named like parameters and locals of the generated helpers."""
+    ms = [Method("instantiate", "inst", (Arg("code_id", "u64"), Arg("msg", "String"), Arg("label", "String"))),
+          Method("migrate", "mig", (Arg("new_code_id", "u64"), Arg("sender", "String"), Arg("msg", "u32"))),
+          Method("exec", "ex", (Arg("admin", "Option<String>"), Arg("salt", "u32"), Arg("funds", "u32"))),
+          Method("query", "qu", (Arg("query", "u32"), Arg("querier", "u32")))]
+    return Contract(methods=tuple(ms), entry_points="")
+
+
 def prefix_program():
     """Message names of one part that are proper prefixes of names of another part of the same kind,
     the longer-named part listed first (routing must compare whole names)."""
@@ -181,6 +190,7 @@ def programs(tier):
     out.append(("pprefix0", prefix_program(), {"parts", "prefix"}))
     out.append(("precase0", recase_program(), {"samename", "recase"}))
     out.append(("pctxmix0", ctxmix_program(), {"samename", "kinds", "ctxmix"}))
+    out.append(("pinstnames0", instnames_program(), {"types", "argnames"}))
     for n in (0, 1, 2):
         out.append(("pparts%d" % n, parts_program(n), {"parts"}))
     KS = ["exec", "query", "sudo"]
